@@ -14,13 +14,19 @@ def main():
     caught, seen = {}, {}
     for path in sorted(glob.glob(os.path.join(HERE, "C*", "RESULTS.md"))):
         pid = os.path.basename(os.path.dirname(path))
-        for line in open(path, encoding="utf-8"):
-            m = re.match(r"\|\s*((?:seeded|selftest)/\S+)\s*\|\s*(yes|NO|ERROR[^|]*)\s*\|", line)
-            if not m:
-                continue
-            name = m.group(1) if m.group(1).startswith("seeded/") else "%s:%s" % (pid, m.group(1))
+        verdict = {}
+        # the full run of the property, then - if it is newer - the last partial run (--only), whose rows replace the older ones
+        partial = os.path.join(os.path.dirname(path), "RESULTS.partial.md")
+        files = [path] + ([partial] if os.path.exists(partial) and os.path.getmtime(partial) > os.path.getmtime(path) else [])
+        for fn in files:
+            for line in open(fn, encoding="utf-8"):
+                m = re.match(r"\|\s*((?:seeded|selftest)/\S+)\s*\|\s*(yes|NO|ERROR[^|]*)\s*\|", line)
+                if m:
+                    verdict[m.group(1)] = m.group(2)
+        for nm, v in verdict.items():
+            name = nm if nm.startswith("seeded/") else "%s:%s" % (pid, nm)
             seen.setdefault(name, []).append(pid)
-            if m.group(2) == "yes":
+            if v == "yes":
                 caught.setdefault(name, []).append(pid)
     present = {"seeded/" + d for d in os.listdir(os.path.join(HERE, "..", "..", "seeded"))}
     rows, missing = [], []
